@@ -38,6 +38,7 @@ func init() {
 			kvSingleLiveVersion(r)
 			kvLookupVisitsEveryTable(r)
 			fragmentCreateAtomic(r)
+			compactionShape(r)
 		},
 	})
 }
